@@ -139,7 +139,7 @@ var subMeta = harness.Define("meta", "generated metadata sections (0-3 chunks in
 var tails = [][]byte{{}, {0xc0, 0x80, 0x80, 0xe1}, {0x05, 0x87, 0x10}, {0xc0, 0x80}, {0xc8}}
 
 func TestMetadata(t *testing.T) {
-	harness.Rapid(t, harness.N(50000, 16*100000), func(t *rapid.T) {
+	harness.Rapid(t, harness.N(50000, 16*1000000), func(t *rapid.T) {
 		b, exp := gen.MetaSection(t)
 		tail := rapid.SampledFrom(tails).Draw(t, "tail")
 		c := Case{Bytes: append(b, tail...), Tail: len(tail)}
@@ -164,7 +164,7 @@ func TestMetadata(t *testing.T) {
 // Mutated real metadata: the reference alone decides.
 func TestMetadataMutations(t *testing.T) {
 	files := corpus.Testdata()
-	harness.Rapid(t, harness.N(10000, 16*20000), func(t *rapid.T) {
+	harness.Rapid(t, harness.N(10000, 16*200000), func(t *rapid.T) {
 		var base []byte
 		if rapid.Bool().Draw(t, "corpus") {
 			base = files[rapid.IntRange(0, len(files)-1).Draw(t, "file")].Data
